@@ -46,7 +46,9 @@ TECHNIQUE = ("Lean 4 proof of a table validator (invariant over the driver loop)
 RULE = ("case = (grammar, token string). Grammars: fixed corpus (test-suite grammars, the nullable-chain / nullable-look-ahead / "
         "right-recursive-start witnesses, dangling else, ambiguous expression) + random grammars with <=4 nonterminals, <=6 "
         "productions, rhs length <=3, <=3 terminals, epsilon productions, left/right recursion + random perturbations of corpus "
-        "grammars. Strings: ALL strings over the grammar's terminals of length <=5 (quick) / <=6 (thorough). distinct = distinct "
+        "grammars + all possibly-empty-list idioms (nullable left/right recursive list after a nonterminal / after a nullable "
+        "prefix / before a terminal / alone). After a first-set disagreement the affected nonterminals are also placed in small "
+        "contexts (Z->X N, Z->N x, Z->Y N z with Y nullable) and enumerated. Strings: ALL strings over the grammar's terminals of length <=5 (quick) / <=6 (thorough). distinct = distinct "
         "(grammar, string); non-trivial grammar = accepted by the builder, accepts a string of length >=2 and rejects some string; "
         "non-trivial case = string of a non-trivial grammar")
 TRUSTED = [
@@ -147,6 +149,64 @@ CORPUS = [
     Gr("ab", [("S", "ASb"), ("S", "b"), ("A", "")], "S", "eps-before-recursion"),
     Gr("ab", [("S", "aA"), ("A", "S"), ("A", "b"), ("A", "")], "S", "mutual-right-recursion"),
 ]
+
+
+def list_idioms():
+    """possibly-empty-list idioms: a nullable left- or right-recursive nonterminal L placed after a
+    nonterminal, after a nullable prefix, before a terminal, or alone (all combinations, deterministic)"""
+    out = []
+    lists = {
+        "left": [("L", ""), ("L", "La")], "right": [("L", ""), ("L", "aL")],
+        "left2": [("L", ""), ("L", "Lab")], "right2": [("L", ""), ("L", "abL")],
+        "leftE": [("L", ""), ("L", "LE"), ("E", "a")], "rightE": [("L", ""), ("L", "EL"), ("E", "a")],
+        "left-eps-last": [("L", "La"), ("L", "")],
+    }
+    ctxs = {
+        "after-nonterminal": [("S", "BL"), ("B", "b")],
+        "before-terminal": [("S", "Lb")],
+        "after-nullable": [("S", "YLc"), ("Y", "b"), ("Y", "")],
+        "between": [("S", "BLc"), ("B", "b")],
+        "alone": [("S", "L")],
+        "after-optional": [("S", "OL"), ("O", "b"), ("O", "")],
+        "twice": [("S", "LbL")],
+    }
+    for ln, lp in lists.items():
+        for cn, cp in ctxs.items():
+            prods = cp + lp
+            if len(prods) > 6:
+                continue
+            terms = [t for t in "abc" if any(t in r for _, r in prods)]
+            out.append(Gr(terms, prods, "S", f"list-{ln}-{cn}"))
+    return out
+
+
+def contexts_around(g, nt):
+    """small grammars that put nonterminal `nt` of g (with everything reachable from it) into the
+    contexts  Z -> X nt,  Z -> nt x,  Z -> Y nt z (Y nullable),  Z -> X nt z  with fresh names"""
+    reach, todo = [], [nt]
+    while todo:
+        n = todo.pop()
+        if n in reach:
+            continue
+        reach.append(n)
+        for l, r in g.prods:
+            if l == n:
+                todo += [x for x in r if x not in g.terms and x not in reach]
+    sub = [(l, r) for l, r in g.prods if l in reach]
+    used = [t for t in g.terms if any(t in r for _, r in sub)]
+    fresh_t = [t for t in "xyzuvw" if t not in g.code][:3]
+    fresh_n = [n for n in ("Z0", "Z1", "Z2") if n not in g.code]
+    if len(fresh_t) < 3 or len(fresh_n) < 3:
+        return []
+    x, y, z = fresh_t
+    Z, X, Y = fresh_n
+    shapes = [
+        ([x], [(Z, [X, nt]), (X, [x])]),
+        ([x], [(Z, [nt, x])]),
+        ([y, z], [(Z, [Y, nt, z]), (Y, [y]), (Y, [])]),
+        ([x, z], [(Z, [X, nt, z]), (X, [x])]),
+    ]
+    return [Gr(used + ts, ps + sub, Z, f"{g.name or 'g'}@{nt}") for ts, ps in shapes]
 
 
 def random_grammar(rng):
@@ -443,6 +503,22 @@ def evaluate(ctx, c, replies):
         ctx.count("eval_first")
         if m != "ok " + c.first_impl:
             ctx.disagree("calculate_first_sets", case, c.first_impl, m)
+            # failing-input search: which nonterminals differ? (contexts are built around them in check())
+            inv = {v: k for k, v in g.code.items()}
+
+            def table(txt):
+                d = {}
+                for part in txt.split(";"):
+                    if ":" in part:
+                        k, v = part.split(":", 1)
+                        d[k] = v
+                return d
+            ti, tm = table(c.first_impl), table(m[3:] if m.startswith("ok ") else "")
+            diff = [inv[int(k)] for k in sorted(set(ti) | set(tm), key=lambda k: int(k) if k.isdigit() else -1)
+                    if k.isdigit() and int(k) in inv and ti.get(k) != tm.get(k)]
+            if not hasattr(ctx, "c32_followups"):
+                ctx.c32_followups = []
+            ctx.c32_followups.append((g, [n for n in diff if n in g.nts]))
     if b.status == "internal":
         ctx.fail("builder:internal-error:" + b.error.split(":")[0], f"LrParserBuilder raised {b.error} on {g.show()}", case)
         return
@@ -551,21 +627,22 @@ def run_cases(ctx, mods, grammars, n, rng, with_damage=True, workers=8):
 
 def grammars_for(ctx):
     rng = ctx.rng
-    gs = list(CORPUS)
+    gs = list(CORPUS) + list_idioms()
     extra = VERIF / "corpus" / "C32"
     if extra.exists():
         for f in sorted(extra.glob("*.json")):
             gs.append(Gr.from_json(json.loads(f.read_text())))
-    nrand = 500 if ctx.thorough else 100
-    npert = 250 if ctx.thorough else 60
+    nrand = 500 if ctx.thorough else 70
+    npert = 250 if ctx.thorough else 45
     seen = {g.key() for g in gs}
     for _ in range(nrand):
         g = random_grammar(rng)
         if g.key() not in seen:
             seen.add(g.key())
             gs.append(g)
+    pool = CORPUS + list_idioms()
     for _ in range(npert):
-        g = perturb(rng, rng.choice(CORPUS))
+        g = perturb(rng, rng.choice(pool))
         if rng.random() < 0.4:
             g = perturb(rng, g)
         if g.key() not in seen:
@@ -574,11 +651,39 @@ def grammars_for(ctx):
     return gs
 
 
+def followup_search(ctx, mods, seen, limit=40):
+    """failing-input search after a first-set disagreement: the nonterminals whose first set differs are
+    put into small contexts (after a nonterminal, before a terminal, after a nullable prefix, between) and
+    these grammars go through the full string enumeration against the verified recogniser"""
+    todo = getattr(ctx, "c32_followups", [])
+    if not todo:
+        return
+    ctx.c32_followups = []
+    gs = []
+    for g, nts in todo:
+        for nt in nts[:3]:
+            for h in contexts_around(g, nt):
+                if h.key() not in seen and len(gs) < limit:
+                    seen.add(h.key())
+                    gs.append(h)
+    ctx.count("followup_context_grammars", len(gs))
+    if not gs:
+        return
+    small = [h for h in gs if len(h.terms) <= 3]
+    big = [h for h in gs if len(h.terms) > 3]
+    if small:
+        run_cases(ctx, mods, small, 5, ctx.rng, with_damage=False)
+    if big:
+        run_cases(ctx, mods, big, 4, ctx.rng, with_damage=False)
+    ctx.c32_followups = []      # no second-order follow-ups
+
+
 def check(ctx):
     mods = ppci_mods()
     n = 6 if ctx.thorough else 5
     gs = grammars_for(ctx)
     run_cases(ctx, mods, gs, n, ctx.rng)
+    followup_search(ctx, mods, {g.key() for g in gs})
     ctx.extra_cov["exhaustive"] = False
     ctx.extra_cov["strings_per_grammar"] = f"all strings over the grammar's terminals of length <= {n}"
     ctx.extra_cov["completeness"] = "validated only (bounded-exhaustive against the verified recogniser), not proved"
